@@ -237,15 +237,19 @@ static void finish(void)
     n_alloc = n_free = 0; bad_index = 0; file_open_cnt = file_close_cnt = 0;
 }
 
-#if KIND == 0
 static const char *SPEC0[8] = { NULL, "flat", "display:flat", "display", "junk", "", "rr:x", "file:missing" };
-static void check(int k)
+static void check_plain(int k)
 {
     char buf[16]; char *arg = NULL;
     if (SPEC0[k]) { strcpy(buf, SPEC0[k]); arg = buf; }
     VASSERTM(parsec_vpmap_init(arg, NBT) == 0, "init returns 0");
     check_flat(NBT);
     finish();
+}
+#if KIND == 0
+static void check(int k)
+{
+    check_plain(k);
     if (k == 7) VWITNESS("missing file falls back to the flat map");
     if (k == 2) VWITNESS("display:flat");
 }
@@ -259,9 +263,21 @@ static void check(int k)
     buf[3] = '0' + RR[k][0]; buf[5] = '0' + RR[k][1]; buf[7] = '0' + RR[k][2];
     int n = RR[k][0], p = RR[k][1], c = RR[k][2];
     int valid = n >= 1 && p >= 1 && c >= 1;
+    if (c > NCORES) c = NCORES;               /* only existing cores can be named */
 #if defined(KF_EXCLUDE_C40_RR_UNIMPLEMENTED)
-    return;                                   /* every rr:n:p:c is inside the recorded class */
-#endif
+    /* every well-formed rr:n:p:c is inside the recorded class: what remains is the malformed rr: form */
+    (void)n; (void)p; (void)c; (void)valid;
+    check_plain(6);
+    if (k == 0) VWITNESS("(known finding active) only the malformed rr: specification is left");
+#elif defined(KF_ONLY_C40_RR_UNIMPLEMENTED)
+    /* the recorded class, reduced to its root cause so that the verdict does not depend on what the
+     * NULL dereference in parsec_vpmap_init reads: the parser is called directly */
+    (void)buf; (void)valid;
+    if (n >= 1) {
+        parsec_vpmap_init_from_parameters(n, p, c);
+        VASSERTM(parsec_vpmap_get_nb_vp() < 1 || parsec_vpmap != NULL, "rr: a map with n >= 1 virtual processes has storage (parsec_vpmap_init dereferences it next)");
+    }
+#else
     VASSERTM(parsec_vpmap_init(buf, NBT) == 0, "init returns 0");
     if (!valid) {
         check_flat(NBT);                      /* a specification that cannot be honoured falls back to the default map */
@@ -279,6 +295,7 @@ static void check(int k)
     finish();
     if (k == 0) VWITNESS("rr:2:2:4");
     if (k == 4) VWITNESS("rr with zero VPs refused");
+#endif
 }
 #define NCHOICE NRR
 #else
@@ -288,8 +305,20 @@ static void check_file(void)
     int exp_nbvp = 0, exp_nbth[NLINES + 1], exp_tpl[NLINES + 1];
     for (int i = 0; i < NLINES; i++) if (i < file_nlines && TPL_NBTH[file_lines[i]] > 0) { exp_tpl[exp_nbvp] = file_lines[i]; exp_nbth[exp_nbvp++] = TPL_NBTH[file_lines[i]]; }
 #if defined(KF_EXCLUDE_C40_FILE_PARSER)
-    return;                                   /* every existing file is inside the recorded class */
-#endif
+    /* every existing file is inside the recorded class: what remains is the file that cannot be opened */
+    (void)exp_tpl; (void)exp_nbth;
+    check_plain(7);
+    if (file_nlines == NLINES) VWITNESS("(known finding active) only the missing-file case is left");
+#elif defined(KF_ONLY_C40_FILE_PARSER)
+    /* the recorded class with one-line files, parser called directly (parsec_vpmap_init would go on
+     * to walk the partly initialised map: no verdict in 1500 s) */
+    (void)buf; (void)exp_tpl;
+    if (file_nlines == 1) {
+        parsec_vpmap_init_from_file("f");
+        VASSERTM(parsec_vpmap_get_nb_vp() == (exp_nbvp ? exp_nbvp : 1), "file: one VP per applicable line (one flat VP when there is none)");
+        if (exp_nbvp == 1) VASSERTM(parsec_vpmap != NULL && parsec_vpmap[0].nbthreads == exp_nbth[0], "file: the first VP has the thread count of its line");
+    }
+#else
     VASSERTM(parsec_vpmap_init(buf, NBT) == 0, "init returns 0");
     VASSERTM(file_open_cnt == 1 && file_close_cnt == 1, "the map file is opened and closed once");
     if (exp_nbvp == 0) {
@@ -308,6 +337,7 @@ static void check_file(void)
     if (exp_nbvp == 2 && file_nlines == NLINES) VWITNESS("two VPs described by the file");
     if (exp_nbvp == 0 && file_nlines >= 1) VWITNESS("file without a line for this process");
     if (exp_nbvp == 1 && file_nlines == 2) VWITNESS("one applicable line among two");
+#endif
 }
 #endif
 
